@@ -377,7 +377,7 @@ def subprocess_sample(stats):
             with open(p, 'w') as f:
                 f.write(text)
             r = subprocess.run([sys.executable, '-m', 'prophyc', '--python_out', work, p], env=env,
-                               stdout=subprocess.PIPE, stderr=subprocess.PIPE, timeout=60)
+                               stdout=subprocess.PIPE, stderr=subprocess.PIPE, timeout=600)
             stats.notes['subprocess_runs'] += 1
             if r.returncode == 0 or not r.stderr.strip():
                 stats.violations.append({'what': '`python -m prophyc` on %s: exit status %d, stderr %r' % (
